@@ -447,3 +447,27 @@ package gojq
 // Assumed (not verified): depends on quoteAndEscape's counting precondition (see DESIGN §3 C08).
 //@ trusted (*lexer).scanString$1(src string, quote bool) (r string, err error)
 //@   requires quote || len(src) >= 2
+
+// ---------------------------------------------------------------------------------------
+// C07: control skeleton of the interpreter loop (execute.go). The opcode handlers are not under
+// contract here (flag nosafety: their panics belong to C08's not-applicable part); the clauses
+// only track pc, err, env.forks and the state saved by the deferred closure.
+// ---------------------------------------------------------------------------------------
+
+//@ pred terminal(e *env) = e.pc >= len(e.codes) && len(e.forks) == 0
+
+//@ func (*env).Next$1()
+//@   requires env != nil
+//@   modifies env.pc, env.backtrack
+//@   ensures env.pc == pc && env.backtrack
+
+// return 1: the cancellation return; return 4: the (nil, false) return.
+//@ func (env *env) Next() (v any, ok bool)
+//@   property C07
+//@   flag nosafety noinv nohoudini
+//@   returns 4
+//@   modifies *
+//@   loop 1 invariant old(terminal(env)) ==> (pc == old(env.pc) && env.codes == old(env.codes) && len(env.forks) == 0 && err == nil)
+//@   ensures old(terminal(env)) ==> !ok && v == nil && terminal(env)
+//@   return 1 ensures ok && terminal(env)
+//@   return 4 ensures !ok && v == nil && terminal(env)
